@@ -44,7 +44,6 @@ def check(tier):
         rep.sample(s)
     rep.cov["traces_validated_against_impl"] = rep.extra["histories_replayed"]
     rep.assumptions += [
-        "a panic of RenderTemplate* that carries the compile *Error (they call Must) is counted as the error here; it is C01's subject",
         "for names that are not banned, 'keeps working' is only required of snippets the harness knows to be valid for that tag/filter",
     ]
     return rep.finish(
